@@ -25,5 +25,6 @@ for id in "$@"; do
   fi
   out=$(VERIF_ROOT="$S/root" VERIF_TIER=${TIER:-quick} "$S/bin/vcheck-$id" drive "$id" ${TIER:-quick} 2>&1); rc=$?
   nv=$(echo "$out" | grep -c '^VIOLATION')
-  echo "[$id rc=$rc violations=$nv] $(echo "$out" | grep -m3 'signature=' | sed 's/observed=.*//' | tr '\n' ' ')"
+  mc=$(echo "$out" | grep -o 'signature=[^ ]* count=[0-9]*' | sed 's/.*count=//' | sort -n | tail -1)
+  echo "[$id rc=$rc violations=$nv maxcount=${mc:-0}] $(echo "$out" | grep -m3 'signature=' | sed 's/observed=.*//' | tr '\n' ' ')"
 done
